@@ -66,17 +66,22 @@ static lp_id_t get_random_neighbor(lp_id_t from, struct topology *topology, size
 	assert(topology->geometry != TOPOLOGY_FCMESH);
 	assert(topology->geometry != TOPOLOGY_GRAPH);
 
+	// Shuffle a private copy: the caller passes a table shared by all LPs and threads, and the outcome must
+	// depend only on the calling LP's random stream (so that it is reproduced after a rollback)
+	enum topology_direction shuffled[n_directions];
+	memcpy(shuffled, directions, sizeof(shuffled));
+
 	if(n_directions > 1) {
 		for(size_t i = 0; i < n_directions - 1; i++) {
 			size_t j = RandomRange((int)i, (int)n_directions - 1);
-			enum topology_direction t = directions[j];
-			directions[j] = directions[i];
-			directions[i] = t;
+			enum topology_direction t = shuffled[j];
+			shuffled[j] = shuffled[i];
+			shuffled[i] = t;
 		}
 	}
 
 	for(size_t i = 0; i < n_directions; i++) {
-		ret = GetReceiver(from, topology, directions[i]);
+		ret = GetReceiver(from, topology, shuffled[i]);
 		if(ret != INVALID_DIRECTION)
 			break;
 	}
